@@ -229,10 +229,15 @@ def check_trailing_pointer(ctx, unit, rule="H.chain-unlink"):
             for blk in f.blocks.values():
                 if blk.cond is not None:
                     c = f.node(blk.cond).strip()
+                    while c.kind == "UnaryOperator" and c.op == "!":
+                        c = c.children[0].strip()
                     if c.kind == "BinaryOperator" and c.op in ("==", "!="):
-                        l = c.children[0].strip()
-                        if l.kind == "DeclRefExpr" and l.d["d"] in cands:
-                            prev = l.d["d"]
+                        for side in c.children:
+                            l = side.strip()
+                            if l.kind == "DeclRefExpr" and l.d["d"] in cands:
+                                prev = l.d["d"]
+                    elif c.kind == "DeclRefExpr" and c.d["d"] in cands:
+                        prev = c.d["d"]
             problems = []
             if prev is None:
                 problems.append("no predecessor variable that selects between head-unlink and mid-chain unlink")
@@ -241,12 +246,15 @@ def check_trailing_pointer(ctx, unit, rule="H.chain-unlink"):
                 loopvar = None
                 hdr = None
                 for blk in f.blocks.values():
-                    if blk.termkind == "ForStmt" and blk.cond is not None:
+                    if blk.termkind in ("ForStmt", "WhileStmt") and blk.cond is not None:
                         c = f.node(blk.cond).strip()
+                        l = None
                         if c.kind == "BinaryOperator" and c.op == "!=":
                             l = c.children[0].strip()
-                            if l.kind == "DeclRefExpr":
-                                loopvar, hdr = l.d["d"], blk.id
+                        elif c.kind == "DeclRefExpr":
+                            l = c
+                        if l is not None and l.kind == "DeclRefExpr" and l.d["d"] != prev and (l.get("t") or "").endswith("*"):
+                            loopvar, hdr = l.d["d"], blk.id
                 if loopvar is None:
                     problems.append("chain walk loop not found")
                 else:
